@@ -1,5 +1,5 @@
 """Which functions, lemmas, mutations and bounded stand-ins decide each property."""
-from contracts import sort_c
+from contracts import sort_c, gfa_c
 
 SORT = "gaftools/cli/sort.py"
 CONV = "gaftools/conversion.py"
@@ -47,5 +47,102 @@ PLAN["C08"] = dict(
         dict(name="untagged sorted first", file=SORT, old="    if al1.BO == -1 and al2.BO != -1:\n        return 1\n", new="    if al1.BO == -1 and al2.BO != -1:\n        return -1\n", expect="compare_gaf"),
         dict(name="drop start comparison", file=SORT, old="    if al1.start < al2.start:\n        return -1\n", new="", expect="compare_gaf"),
         dict(name="harmless: elif->if after return", file=SORT, old="    if al2.BO == -1 and al1.BO != -1:\n        return -1\n", new="    elif al2.BO == -1 and al1.BO != -1:\n        return -1\n", expect="green"),
+    ],
+)
+
+PLAN["C05"] = dict(
+    level="proof",
+    functions=[(VIEW, "search")],
+    explanation="view.search (bisection for the first indexed node ending after the region start, then forward scan) returns exactly the "
+                "indexed nodes of the contig whose interval intersects the closed region [a,b], as a contiguous run of the sorted list; "
+                "all list accesses in bounds; both loops terminate (decreases). get_unstable's glue (split of CONTIG:a-b, per-contig "
+                "filter/sort of the index keys, concatenation over regions) and the composition with --node are covered by the bounded stand-in.",
+    trusted_base=["precondition of search (keys of one contig sorted by start and pairwise disjoint) is established by get_unstable from a valid rGFA: checked at run time by the bounded stand-in only",
+                  "get_unstable glue: BOUNDED stand-in only"],
+    mutations=[
+        dict(name="bisection <= -> <", file=VIEW, old="if node_list[m][3] <= q_s:", new="if node_list[m][3] < q_s:", expect="search"),
+        dict(name="scan <= -> <", file=VIEW, old="node_list[pos][2] <= q_e:", new="node_list[pos][2] < q_e:", expect="search"),
+        dict(name="e = m - 1", file=VIEW, old="            e = m\n", new="            e = m - 1\n", expect="search"),
+    ],
+)
+
+PLAN["C14"] = dict(
+    level="proof",
+    functions=[(GFA, "GFA.path_exists")],
+    lemmas=[gfa_c.lemma_reversal],
+    explanation="path_exists (4-row orientation table, early return, inner scan over the adjacency set) returns True iff every consecutive "
+                "pair of steps is a link of the graph in the matching orientations, stated against the GFA link semantics (leave a through "
+                "its end for '>' / start for '<', enter b at its start for '>' / end for '<'); lemma: under the symmetric-adjacency "
+                "invariant (C15) a step is a link iff the reversed step is, hence the reversed walk is accepted iff the walk is. "
+                "extract_path's concatenation / reverse complement and find_path's record loop are covered by the bounded stand-in.",
+    trusted_base=["re.findall('[><][^><]+', path) tokenises the path (assumed)", "str.translate / [::-1] implement reverse complement (assumed)",
+                  "extract_path, rev_comp, find_path.run: BOUNDED stand-in only"],
+    mutations=[
+        dict(name="swap two table rows", file=GFA, old='            (">", "<"): ("end", 1),\n            ("<", ">"): ("start", 0),', new='            (">", "<"): ("start", 0),\n            ("<", ">"): ("end", 1),', expect="path_exists"),
+        dict(name="row << wrong side", file=GFA, old='("<", "<"): ("start", 1)', new='("<", "<"): ("start", 0)', expect="path_exists"),
+    ],
+)
+
+_NODE_METHODS = [(GFA, "Node." + m) for m in ("add_from_start", "add_from_end", "remove_from_start", "remove_from_end")]
+PLAN["C15"] = dict(
+    level="other",
+    functions=_NODE_METHODS + [(GFA, "GFA.add_edge"), (GFA, "GFA.remove_edge")],
+    explanation="PROVED (deductive, unbounded): the representation invariant of the adjacency (symmetric between the two ends of every link, no "
+                "dangling ids) is preserved by add_edge and remove_edge, with whole-view postconditions (the adjacency changes by exactly "
+                "that link at both ends, self-links included, node set unchanged); histories follow by induction over operations. "
+                "BOUNDED only: biccs (iterative Hopcroft-Tarjan), all_components / find_component / dfs, remove_node, add_node: exhaustive "
+                "comparison with the definitions on all small graphs (see coverage.bounded).",
+    trusted_base=["biccs, components, dfs, remove_node, add_node: BOUNDED stand-in only (never counted as proved)"],
+    not_applicable_clauses=["biccs beyond the enumerated bound; termination of the work-list loops"],
+    mutations=[
+        dict(name="add_edge second end on the wrong side", file=GFA, old="        if node2_dir == 0:\n            self[node2].add_from_start(node1, node1_dir, overlap)", new="        if node2_dir == 1:\n            self[node2].add_from_start(node1, node1_dir, overlap)", expect="add_edge", functions=[(GFA, "GFA.add_edge")]),
+        dict(name="remove_edge forgets the second end", file=GFA, old="        if side2 == 0:\n            self.nodes[n2].remove_from_start(n1, side1, overlap)\n        else:\n            self.nodes[n2].remove_from_end(n1, side1, overlap)", new="        if side2 == 0:\n            self.nodes[n2].remove_from_start(n1, side1, overlap)", expect="remove_edge", functions=[(GFA, "GFA.remove_edge")], quick=False),
+    ],
+)
+
+PLAN["C07"] = dict(
+    level="other",
+    functions=[(GFA, "GFA.write_gfa#L-line-from-start"), (GFA, "GFA.write_gfa#L-line-from-end"), (GFA, "GFA.add_edge")],
+    explanation="PROVED: the L-line emitted by write_gfa for an adjacency entry carries orientation signs that decode through E_DIR (the table "
+                "add_edge uses) to exactly the stored sides, with id, overlap and tags in place (both the start-side and the end-side branch); "
+                "add_edge stores exactly the declared link at both ends. BOUNDED: exactly-once emission per declared link (edge_tags keying), "
+                "S-before-L, (BO,NO) order, tag round trip, CSV rows, load->write->independent-reader equality.",
+    trusted_base=["'\\t'.join / split round trip (assumed)", "exactly-once emission, S/L order, CSV, tags: BOUNDED stand-in only"],
+    mutations=[
+        dict(name="swap sign in one write_gfa branch", file=GFA, old='"\\t".join(["L", str(n1), "-", str(n[0]), "+", overlap] + tags)', new='"\\t".join(["L", str(n1), "-", str(n[0]), "-", overlap] + tags)', expect="write_gfa", functions=[(GFA, "GFA.write_gfa#L-line-from-start")]),
+    ],
+)
+
+_SORT_FUNCS = [(SORT, "sort#passes"), (SORT, "process_alignment#body"), (SORT, "write_to_file")]
+PLAN["C09"] = dict(
+    level="proof",
+    functions=_SORT_FUNCS,
+    explanation="Both passes of sort() against the abstract reader/writer contract: pass 1 records exactly one (offset, keys) entry per input "
+                "record with the offset taken before the read; list.sort yields a permutation (ghost maps both ways); pass 2 writes, for the "
+                "t-th sorted entry, the input line at that offset (rstrip'ed) followed by exactly bo:i:<BO>, sn:Z:<sn>, iv:i:<inv>; hence the "
+                "output is a permutation of the input records, each unchanged plus three tags. process_alignment's body is verified for every "
+                "path length: anchor = last node iff strictly more tagged scaffold steps are '<' than '>', (BO,NO) of the anchor, start on the "
+                "anchor side, iv = 1 iff both orientations occur among tagged scaffold steps, sn = SN of the first rank-0 node or 'unknown'.",
+    trusted_base=["reader contract (tell/readline/seek with opaque strictly increasing offsets) for text files and BGZFile: assumed, exercised by the bounded stand-in",
+                  "line.rstrip().split('\\t') = field list of the record (assumed)", "bytes branch (decode) equals the str branch: not modelled, bounded only"],
+    mutations=[
+        dict(name="write NO as bo:i", file=SORT, old="alignment.BO, alignment.sn, alignment.inv)", new="alignment.NO, alignment.sn, alignment.inv)", expect="sort#passes", functions=[(SORT, "sort#passes")]),
+        dict(name="seek off+1", file=SORT, old="            reader.seek(off)", new="            reader.seek(off + 1)", expect="sort#passes", functions=[(SORT, "sort#passes")], quick=False),
+        dict(name="anchor test < -> <=", file=SORT, old='    if orient_list.count(">") < orient_list.count("<"):', new='    if orient_list.count(">") <= orient_list.count("<"):', expect="process_alignment", functions=[(SORT, "process_alignment#body")]),
+        dict(name="scaffold filter inverted", file=SORT, old="        if no_tag != 0:\n            continue", new="        if no_tag == 0:\n            continue", expect="process_alignment", functions=[(SORT, "process_alignment#body")]),
+    ],
+)
+PLAN["C10"] = dict(
+    level="proof",
+    functions=[(SORT, "sort#passes")],
+    explanation="Index bookkeeping of pass 2 (ghost first/last position per contig): the pickled dict has no 'unknown' key whether or not the bucket "
+                "existed, an entry for exactly the contigs that occur among the written records, holding writer.tell() taken before the first and "
+                "the last record of that contig; every record of the contig lies between them. The choice of the index path in run_sort and the "
+                "resolution of the offsets in real plain/BGZF files are covered by the bounded stand-in.",
+    trusted_base=["writer contract: tell() before the k-th write is the offset at which a reader finds the k-th record (assumed; exercised on real plain/BGZF output by the bounded stand-in)",
+                  "pickle round trip (assumed)"],
+    mutations=[
+        dict(name="last offset only in else", file=SORT, old="                    index_dict[alignment.sn][0] = out_off\n                    index_dict[alignment.sn][1] = out_off", new="                    index_dict[alignment.sn][0] = out_off", expect="sort#passes"),
+        dict(name="pop without default", file=SORT, old='index_dict.pop("unknown", None)', new='index_dict.pop("unknown")', expect="sort#passes"),
     ],
 )
